@@ -1,4 +1,6 @@
 // Native demonstration of the basis-bookkeeping defects of the internal _xxxReal twins (state !_isRealLPLoaded && _hasBasis forced as solvereal.hpp:286-289 creates it).
+// STATUS: r/R (defect D) fixed by eba3678, e (E) by 75ef068, c (F) by 451259c in /repo; f (defect G: FIXED status survives unequal bounds) is OPEN
+// (known_findings.json; instances int_change*Real_i_fixedclause of units/lpmod).
 // build: g++ -std=c++14 -g -DNDEBUG -fno-access-control -I/repo/src -I/repo/_build native_forced.cpp /repo/_build/lib/libsoplex.a -lgmp -lmpfr -lz -o t && for w in r R e f c; do ./t $w; done
 // forced state (!_isRealLPLoaded && _hasBasis): the state _preprocessAndSolveReal creates (copy of the LP outside the solver,
 // basis kept in _basisStatusRows/_basisStatusCols).  Then the internal twins' bookkeeping is exercised through the public API.
